@@ -19,6 +19,7 @@ import (
 	adapterErrors "github.com/glebziz/fs_db/internal/adapter/errors"
 	"github.com/glebziz/fs_db/internal/app"
 	"github.com/glebziz/fs_db/internal/db/badger"
+	"github.com/glebziz/fs_db/internal/di"
 	"github.com/glebziz/fs_db/internal/model"
 	modelCore "github.com/glebziz/fs_db/internal/model/core"
 	"github.com/glebziz/fs_db/internal/model/sequence"
@@ -152,7 +153,11 @@ type Server struct {
 	cancel context.CancelFunc
 	done   chan error
 	stop   func() error
+	c      *di.Container
 }
+
+// GC runs one pass of the old-version collector of the server's database.
+func (s *Server) GC() error { return s.c.Cleaner().DeleteOld(context.Background()) }
 
 // StartServer starts internal/app on a free loopback port.
 func StartServer(cfg config.Config) (*Server, error) {
@@ -172,7 +177,7 @@ func StartServer(cfg config.Config) (*Server, error) {
 		return nil, err
 	}
 
-	s := &Server{Addr: fmt.Sprintf("127.0.0.1:%d", port), cancel: cancel, done: make(chan error, 1), stop: a.Stop}
+	s := &Server{Addr: fmt.Sprintf("127.0.0.1:%d", port), cancel: cancel, done: make(chan error, 1), stop: a.Stop, c: a.VerifContainer()}
 	go func() { s.done <- a.Run(ctx) }()
 
 	for i := 0; i < 2000; i++ {
